@@ -165,7 +165,17 @@ func (p *printer) newline() {
 func (p *printer) junk() {
 	// wild mode only: comment / blank line material between tokens
 	r := p.lay.R
-	switch r.Intn(6) {
+	switch r.Intn(10) {
+	case 6:
+		// `--[` followed by `=`s but no second bracket opens nothing: a short comment
+		p.sb.WriteString([]string{" --[= not a long bracket", " --[==", " --[=]=] still short", " --[", " --[==x[ ]]"}[r.Intn(5)])
+		p.newline()
+	case 7:
+		p.sb.WriteString("\f")
+	case 8:
+		p.sb.WriteString(" \v")
+	case 9:
+		p.sb.WriteString(" --[=[ ]] ]=]--[[]]")
 	case 0:
 		p.sb.WriteString(" -- c" + strconv.Itoa(r.Intn(100)))
 		p.newline()
